@@ -250,7 +250,7 @@ theorem client_keys_exact (s : Sys F) (now : Nat) (pkt : Sys.Bytes) (hnd : (ids 
         (l.core.connId ∈ fn0 ↔ l.core.connId ∈ s.failNext) → Hk.FnLe s.failNext fn0 →
         Hk.FnLe (Hk.fwdLink s.failAfter m pkt (Codec.getSrtSequenceNumberS pkt) now fn0).2.2 (handleSrtPacket s pkt now).1.failNext →
         appendedClient s pkt now j = [clientItem pkt now] →
-        (Hk.fwdLink fa m pkt (Codec.getSrtSequenceNumberS pkt) now fn0).1.core.keys =
+        (Hk.fwdLink s.failAfter m pkt (Codec.getSrtSequenceNumberS pkt) now fn0).1.core.keys =
           (if (appendedClient s pkt now j).isEmpty = true then []
             else if (l.queue ++ appendedClient s pkt now j).length < l.regime.batchSize then []
             else if l.core.connId ∈ s.failNext then [KOp.reset]
